@@ -286,12 +286,11 @@ let om_str (xs : xserver) : string =
   let sv = xs_sv ops xs in
   let per = List.filter_map (fun ss ->
       let dir = session_dir ops ss in
-      let groups = List.filter_map (fun d ->
-          let r = List.filter (fun p -> not (under dir p)) d.di_removed in
-          let st = List.filter (fun (p, _) -> not (under dir p)) d.di_sets in
-          if r = [] && List.for_all (fun (_, vs) -> vs = []) st then None
-          else Some (di_str { di_removed = r; di_sets = st })) ss.s_out in
-      if groups = [] then None else Some (Printf.sprintf "c%d:%s" (int_of_n ss.s_id) (String.concat "" groups)))
+      (* one group per op: Message boundaries are not compared (the own nodes count towards the item limit) *)
+      let r = List.concat_map (fun d -> List.filter (fun p -> not (under dir p)) d.di_removed) ss.s_out in
+      let st = List.concat_map (fun d -> List.filter (fun (p, vs) -> vs <> [] && not (under dir p)) d.di_sets) ss.s_out in
+      if r = [] && st = [] then None
+      else Some (Printf.sprintf "c%d:%s" (int_of_n ss.s_id) (di_str { di_removed = r; di_sets = st })))
       (List.sort (fun a b -> compare (int_of_n a.s_id) (int_of_n b.s_id)) (sv_sessions ops sv)) in
   "M{" ^ String.concat " " per ^ "}"
 
